@@ -19,7 +19,9 @@ open Cppcheck.Wire Cppcheck.MathLit Cppcheck.CharLit Cppcheck.Trunc Cppcheck.Pla
 /-! ## integer literals -/
 
 /-- Every literal of the grammar (any base, any number of digits, any accepted suffix, optional sign) whose
-    magnitude fits 64 bits is converted to its exact value, represented as a 64-bit two's-complement bigint. -/
+    magnitude fits 64 bits is converted to the 64-bit two's-complement IMAGE of its value (`Int.bmod · 2^64`): values in
+    [2^63, 2^64) come out as negative bigints.  (`Lit` carries an optional sign because the tokenizer may hand MathLib a
+    merged `-5`; in C the sign is a unary operator, `value` is the value of that token text, not of a C literal.) -/
 theorem toBig_render (l : Lit) (hwf : l.WF = true) (hc : l.canonical = true) (h : l.magnitude < 2 ^ 64) :
     toBigNumber (render l) = .ok (Int.bmod l.value (2 ^ 64)) :=
   toBigNumber_render hwf hc (Or.inr h)
@@ -66,6 +68,48 @@ theorem isInt_iff_grammar (s : Str) : isInt s = true ↔ ∃ l : Lit, l.WF = tru
     u l z | ul uz lu ll zu | ull llu i64 | ui64 (either case per letter) and `_` followed by at least one character. -/
 theorem suffix_iff_spec (s : Str) : isValidIntegerSuffix s true = specSuffix s :=
   suffix_spec s
+
+/-- the same machine with `supportMicrosoftExtensions = false`: the table without `i64` / `ui64` -/
+theorem suffix_iff_spec_std (s : Str) : isValidIntegerSuffix s false = specSuffixStd s :=
+  suffix_spec_std s
+
+/-! ## spelling → type → reported value of an integer literal token
+
+`toBigNumber` (this file), the type `setValueTypeInTokenList` gives the literal (C09's model `litTypeCore`, proved against
+C17 6.4.4.1p5 in `Cppcheck.ValueTypeConv.literal_type_partial`) and the literal branch of `valueFlowSetConstantValue` +
+`setTokenValue` guard (`constValue`) composed: the known value attached to the token of an unsigned-spelled (no sign)
+literal is the VALUE OF THE LITERAL whenever bigint can hold it, and NO value otherwise — on every platform shape with
+64-bit `long long`, whatever base, digits and suffix. -/
+open Cppcheck.ValueTypeConv in
+theorem literal_value (l : Lit) (hwf : l.WF = true) (hc : l.canonical = true) (hs : l.sign = none) (hm : l.magnitude < 2 ^ 64)
+    (ib lb : Nat) (hib : ib ≤ 64) (hlb : lb ≤ 64) (dec us : Bool) (longs : Nat) (cs : Option Bool) (cb : Nat) :
+    ∃ b, toBigNumber (render l) = .ok b ∧
+      constValue b false cs cb
+        ((litTypeCore (maxValue ib) (maxValue lb) (maxValue 64) dec us longs l.magnitude).sign == .unsigned)
+        (litBits ib lb 64 (litTypeCore (maxValue ib) (maxValue lb) (maxValue 64) dec us longs l.magnitude).type / 8)
+        (some (litBits ib lb 64 (litTypeCore (maxValue ib) (maxValue lb) (maxValue 64) dec us longs l.magnitude).type))
+      = if l.magnitude < 2 ^ 63 then some (l.magnitude : Int) else none := by
+  refine ⟨_, toBig_render l hwf hc hm, ?_⟩
+  have hv : l.value = (l.magnitude : Int) := by simp [Lit.value, hs]
+  rw [hv]
+  by_cases hsmall : l.magnitude < 2 ^ 63
+  · have hb : Int.bmod (l.magnitude : Int) (2 ^ 64) = (l.magnitude : Int) := bmod_of_range (by omega) (by omega)
+    have hnn : ¬ ((l.magnitude : Int) < 0) := by omega
+    simp [hb, constValue, charAdjust, hsmall, hnn]
+  · obtain ⟨hsign, hbits⟩ := litType_large ib lb hib hlb dec us longs l.magnitude (by omega) hm
+    have hb : Int.bmod (l.magnitude : Int) (2 ^ 64) = (l.magnitude : Int) - 2 ^ 64 := by
+      rw [Int.bmod_def]
+      have e : ((2 ^ 64 : Nat) : Int) = 2 ^ 64 := by norm_cast
+      rw [e]
+      split <;> omega
+    have hneg : (l.magnitude : Int) - 2 ^ 64 < 0 := by omega
+    simp [hb, hsign, hbits, constValue, charAdjust, hsmall, hneg]
+    omega
+
+-- `0x7fffFFFFu` on unix64 (int 32, long 64): value 2147483647; `18446744073709551615u`: no value
+example : (⟨none, .hex, false, "7fffFFFF".toList, "u".toList⟩ : Lit).WF = true ∧
+    (⟨none, .hex, false, "7fffFFFF".toList, "u".toList⟩ : Lit).magnitude = 2147483647 ∧
+    (⟨none, .dec, false, "18446744073709551615".toList, "u".toList⟩ : Lit).magnitude = 2 ^ 64 - 1 := by decide
 
 /-! ## character literals -/
 
@@ -124,6 +168,14 @@ theorem truncate_unsigned (v : Int) (n : Nat) (hn : 0 < n ∧ n < 8) :
   have h2 : v % ((2 ^ (8 * n) : Nat) : Int) < ((2 ^ (8 * n) : Nat) : Int) := Int.emod_lt_of_pos _ (by omega)
   congr 1
   apply bmod_of_range <;> omega
+
+/-- `castValue` (what `setTokenValueCast` applies for a cast to char/short/int/long/long long of `8n` bits) is the C conversion
+    to the target type, re-read as bigint -/
+theorem cast_eq_wrap (v : Int) (hv : -(2 ^ 63) ≤ v ∧ v < 2 ^ 63) (n : Nat) (hn : 0 < n ∧ n ≤ 8) (signed : Bool) :
+    castValue v signed (8 * n) = Int.bmod (wrapC (8 * n) signed v) (2 ^ 64) :=
+  castValue_eq_wrap v hv n hn.1 hn.2 signed
+
+example : (-(2 ^ 63 : Int) ≤ 300 ∧ (300 : Int) < 2 ^ 63) ∧ castValue 300 false (8 * 1) = 44 ∧ castValue 200 true (8 * 1) = -56 := by decide
 
 /-- `getMinMaxValues` gives the range of the type for widths below 62 bits and for signed 64-bit types. -/
 theorem minmax_eq_range_partial (bits : Nat) (unsigned : Bool)
